@@ -71,7 +71,7 @@ CHECKS = {
             "_gen_c_api() byte for byte on random types and the IR semantics with the real compiled accessors on real objects.",
             "The C semantics of the printed statement forms is the trusted reading Stmt.exec, validated on every compiled accessor "
             "call of each run; that docAddr is also the address the Python view uses is a theorem for array indexing "
-            "(C02_index_is_view_index) and struct fields (C02_field_address); for paths through references it is witnessed by the oracle (compiled vs Python "
+            "(C02_index_is_view_index) and struct fields (C02_field_address); for a step through a reference it is C02_ref_step_is_deref (the emitted `offset += *(int64_t*)(obj+offset)` lands on `deref` of the slot, negative relative offsets included); whole paths through references are witnessed by the oracle (compiled vs Python "
             "accessor on the same object) and by leafAt executed against the library's slot addresses.",
             "7/C02"),
     "C07": ("Lean 4 proof: pointwise-update semantics of the generated setter and the complete load list of every accessor by "
